@@ -38,7 +38,8 @@ S(id="HT.empty", props=["C19", "C12"], harness="h_empty", mode="U", loops=True, 
 S(id="HT.delete", props=["C19", "C12", "C14"], harness="h_delete", mode="L", enforce=["delete_hash_table/delete_c"],
   functions=["delete_hash_table"], what="both blocks released exactly once", **HT)
 S(id="HT.find", props=["C19", "C12"], harness="h_find", mode="U", loops=True, n_loops=1, canaries=2, enforce=["find_hash_table_entry/find_c"],
-  replace=["expand_hash_table/expand_unreachable_c"], functions=["find_hash_table_entry"], weight=5, timeout=600,
+  replace=["expand_hash_table/expand_unreachable_c"], functions=["find_hash_table_entry"], weight=5, timeout=900, cbmc=["--sat-solver", "cadical"], mem=24,
+  backend="cbmc 6.11 symex + CaDiCaL (MiniSat needs 5x longer on this set)",
   what="in-bounds aligned result, never a DELETED slot, non-empty result was accepted by eq, count+1 iff reserved, an arbitrary other slot unchanged (deleted slot reused is cleared)", **HT)
 S(id="HT.remove", props=["C19", "C12"], harness="h_remove", mode="L", enforce=["remove_element_from_hash_table_entry/remove_c"],
   replace=["find_hash_table_entry/find_for_remove_c"], functions=["remove_element_from_hash_table_entry"],
@@ -230,7 +231,7 @@ S(id="UB.lex", props=["C12", "C11"], spec="lex.spec.c", harness="h_yylex", mode=
 S(id="T.size.place", props=["C13", "C12"], spec="tree.spec.c", harness="h_place", mode="L", canaries=3, enforce=["place_translation/place_c"], functions=["place_translation"],
   what="first translation stored as is; otherwise a NULL-terminated ALT list whose new first alternative is the node passed in (an alternative is never an ALT); "
        "only node-sized blocks are requested from parse_alloc, only parse_alloc memory and *place are written")
-S(id="T.size.copy", props=["C13", "C12"], spec="tree.spec.c", harness="h_copy_anode", mode="U", loops=True, n_loops=1, enforce=["copy_anode/copy_anode_c"],
+S(id="T.size.copy", props=["C13", "C12", "C04"], spec="tree.spec.c", harness="h_copy_anode", mode="U", loops=True, n_loops=1, enforce=["copy_anode/copy_anode_c"],
   replace=["place_translation/place_use_c"], functions=["copy_anode"], params={"quick": {"TL": 8}, "thorough": {"TL": 64}},
   what="one block of sizeof(node) + (trans_len + 1) child slots; node fields and children copied (ghost index), displaced child cleared, NULL terminator kept")
 TREE_B = dict(spec="tree.spec.c", mode="B", dfcc=False, instr=["--drop-unused-functions"], unwind_all=5, rec_unwind=3, timeout=600)
@@ -240,7 +241,7 @@ S(id="P.restore", props=["C04"], harness="h_traverse", canaries=2, functions=["t
 # ---------------- supporting static facts (mode S: assumption checks, never counted as proved) ----------------
 S(id="S.flags", props=["C14", "C15", "C17"], mode="S", static="flags", spec="", harness="", bound="syntactic", functions=["yaep_parse"],
   what="in yaep_parse each *_init () call is immediately followed by its flag assignment and the flags are cleared before setjmp (justifies flag == ghost counter in phase B)")
-S(id="S.oneparse", props=["C14", "C15"], mode="S", static="oneparse", spec="", harness="", bound="syntactic", functions=["make_parse"],
+S(id="S.oneparse", props=["C14", "C15", "C04"], mode="S", static="oneparse", spec="", harness="", bound="syntactic", functions=["make_parse"],
   what="make_parse restores grammar->one_parse_p unconditionally on its only exit path (settings are not changed by a parse)")
 S(id="S.fmt", props=["C15", "C12"], mode="S", static="fmt", spec="", harness="", bound="syntactic", functions=["yaep_error call sites"],
   what="every error call site passes a literal format that starts with text (message non-empty)")
@@ -287,13 +288,18 @@ for nm, fn, lp in [("up", "term_set_up", 0), ("test", "term_set_test", 0), ("cle
       what="%s: word accesses inside the set of ((n_terms+63)/64) words, no shift/sign overflow, effect stated over an arbitrary word (ghost index)" % fn)
 S(id="G.ctx", props=["C14", "C12"], spec="parse.spec.c", harness="h_build_start_set", mode="B", dfcc=True, enforce=["build_start_set/build_start_set_c"],
   replace=["term_set_insert/term_set_insert_c", "term_set_create/term_set_create_c", "term_set_clear/term_set_clear_c", "set_new_start/set_new_start_c",
-           "sit_create/sit_create_c", "set_new_add_start_sit/set_new_add_start_sit_c", "set_insert/set_insert_c", "expand_new_start_set/expand_new_start_set_c"],
-  unwind_all=4, bound="the start symbol $S has 1 or 2 rules (always the case: `$S : S $eof' and optionally `$S : error $eof')", functions=["build_start_set"],
+           "sit_create/sit_create_c", "set_new_add_start_sit/set_new_add_start_sit_c", "set_insert/set_insert_c", "expand_new_start_set/expand_new_start_set_c",
+           "set_print/set_print_c"],
+  unwind_all=4, assumes=["the debug printer set_print writes no parser state (assumed contract)"], bound="the start symbol $S has 1 or 2 rules (always the case: `$S : S $eof' and optionally `$S : error $eof')", functions=["build_start_set"],
   what="whether the empty context is new in the grammar's terminal-set table or already there from an earlier parse, the situation table is indexed with a non-negative context "
        "(0 for lookahead levels 0 and 1)")
 
 
 # sets still being brought up: not part of any tier until they are green on the unchanged tree (run with --sets <id>)
 for _s in SETS:
-    if _s["id"] in ("TOK.vec", "D.codes", "D.codes.conflict", "UB.msg.arg", "T.free.flat", "T.free.nested", "G.ctx", "UB.tset.or"):
+    if _s["id"] in ("TOK.vec", "D.codes", "D.codes.conflict", "UB.msg.arg", "T.free.flat", "T.free.nested", "UB.tset.or"):
         _s["disabled"] = "work in progress"
+S(id="T.anode_reset", props=["C13", "C14"], spec="parse.spec.c", harness="h_parse_init", mode="B", dfcc=True,
+  replace=["sit_init/sit_init_c", "set_init/set_init_c", "core_symb_vect_init/core_symb_vect_init_c"], unwind_all=5,
+  bound="grammars with <= 3 rules (list walk unwound)", functions=["yaep_parse_init"],
+  what="every rule's caller_anode is NULL when a parse starts (abstract-node names are allocated per parse, never shared between trees of different parses)")
